@@ -2,6 +2,13 @@
 
 package shovel
 
+import (
+	"context"
+
+	"github.com/indexsupply/shovel/shovel/config"
+	"github.com/jackc/pgx/v5/pgxpool"
+)
+
 // Observation hooks for the verification harness in /verif.
 // Compiled only with -tags verif.
 
@@ -39,4 +46,23 @@ func (tm *Manager) VerifIdle() bool {
 		return true
 	}
 	return false
+}
+
+// VerifLoadTasks builds the tasks of a configuration exactly as
+// the manager does for a new generation, without running them.
+func VerifLoadTasks(ctx context.Context, pgp *pgxpool.Pool, c config.Root) ([]*Task, error) {
+	return loadTasks(ctx, pgp, c)
+}
+
+// VerifInfo identifies a task.
+func (t *Task) VerifInfo() VerifTaskInfo {
+	return VerifTaskInfo{
+		SrcName:     t.srcName,
+		ChainID:     t.srcChainID,
+		IGName:      t.destConfig.Name,
+		Start:       t.start,
+		Stop:        t.stop,
+		BatchSize:   t.batchSize,
+		Concurrency: t.concurrency,
+	}
 }
